@@ -20,9 +20,8 @@ theorem loadStack_db (w : World) (u : User) (self : Flav) (s : Nat) :
       (loadStack w u self s).w.nst = w.nst ∧ (loadStack w u self s).w.touch = w.touch ∧
       (loadStack w u self s).w.extras = w.extras := by
   unfold loadStack
-  dsimp only
   split
-  · exact saveAll_db _ _ _ _ _
+  · exact ⟨rfl, rfl, rfl, rfl, rfl⟩
   · split
     · exact ⟨rfl, rfl, rfl, rfl, rfl⟩
     · exact saveAll_db _ _ _ _ _
@@ -156,12 +155,27 @@ theorem step_db (fixed : Bool) (w : World) (u : User) (c : Cmd) (crash : Option 
 theorem step_rmCache_db (fixed : Bool) (w : World) (u : User) (s : Nat) (f : Flav) :
     (stepG fixed w (.rmCache u s f)).w.db = w.db := rfl
 
+/-- `eups admin buildCache -A` writes cache files and nothing else -/
+theorem step_adminBuild_db (fixed : Bool) (w : World) (u : User) (self : Flav) :
+    (stepG fixed w (.adminBuild u self)).w.db = w.db ∧ (stepG fixed w (.adminBuild u self)).w.dirs = w.dirs ∧
+      (stepG fixed w (.adminBuild u self)).w.nst = w.nst ∧ (stepG fixed w (.adminBuild u self)).w.touch = w.touch ∧
+      (stepG fixed w (.adminBuild u self)).w.extras = w.extras ∧ (stepG fixed w (.adminBuild u self)).trace = [] := by
+  simp only [stepG]
+  obtain ⟨h1, h2, h3⟩ := load_db { w with caches := w.caches.filter fun x => x.user != u } sysUser self
+  have h4 := load_touch { w with caches := w.caches.filter fun x => x.user != u } sysUser self
+  have h5 := load_extras { w with caches := w.caches.filter fun x => x.user != u } sysUser self
+  generalize load { w with caches := w.caches.filter fun x => x.user != u } sysUser self = l at h1 h2 h3 h4 h5
+  obtain ⟨m, fl, w1⟩ := l
+  exact ⟨h1, h2, h3, h4, h5, trivial⟩
+
 /-- every property of the database that every effect preserves is preserved by every command -/
 theorem step_preserves (P : Spec → Prop) (hP : ∀ c e, P c → P (applyDb e c))
     (fixed : Bool) (w : World) (c : WCmd) (h : P w.db) : P (stepG fixed w c).w.db := by
   cases c with
   | rmCache u s f => exact h
   | clearCache u => exact h
+  | envRmDir d => exact h
+  | adminBuild u self => rw [(step_adminBuild_db fixed w u self).1]; exact h
   | run u c crash =>
     obtain ⟨m, dirs, ex, es, -, he⟩ := step_db fixed w u c crash
     rw [he]
